@@ -911,6 +911,34 @@ package main
 //@   ensures literal: len(parseIP(name)) != 0 ==> err == nil && result == name
 //@   ensures table: knownHost(hr.hostIPs, name) ==> err == nil && result == knownIp(hr.hostIPs, name)
 
+// the alias table behind "a host that resolves to the listener address" (C13): later configuration entries replace
+// earlier ones, so a service's own hosts: section overrides the global one
+//@ func (*PreConfigHostResolver).AddHostIP
+//@   props C13
+//@   modifies mapof(hr.hostIPs)
+//@   ensures set: has(hr.hostIPs, name) && hr.hostIPs[name] == ip
+//@   ensures others: forall k string :: k != name ==> has(hr.hostIPs, k) == old(has(hr.hostIPs, k)) && hr.hostIPs[k] == old(hr.hostIPs[k])
+
+//@ func createPreConfigHostResolver
+//@   props C13
+//@   ensures fresh-table: fresh(result)
+//@   ensures service-entry-wins: forall j int :: 0 <= j && j < len(config.Hosts) && (forall j2 int :: j < j2 && j2 < len(config.Hosts) ==> config.Hosts[j2].Name != config.Hosts[j].Name)
+//@        ==> has(result.hostIPs, config.Hosts[j].Name) && result.hostIPs[config.Hosts[j].Name] == config.Hosts[j].Ip
+//@   ensures global-entry-otherwise: forall i int :: 0 <= i && i < len(globalHostIPs) && (forall i2 int :: i < i2 && i2 < len(globalHostIPs) ==> globalHostIPs[i2].Name != globalHostIPs[i].Name)
+//@        && (forall j int :: 0 <= j && j < len(config.Hosts) ==> config.Hosts[j].Name != globalHostIPs[i].Name)
+//@        ==> has(result.hostIPs, globalHostIPs[i].Name) && result.hostIPs[globalHostIPs[i].Name] == globalHostIPs[i].Ip
+//@   loop 0:
+//@     invariant 0 <= $i && $i <= len(globalHostIPs) && fresh(resolver) && resolver != nil
+//@     invariant forall i int :: 0 <= i && i < $i && (forall i2 int :: i < i2 && i2 < $i ==> globalHostIPs[i2].Name != globalHostIPs[i].Name)
+//@        ==> has(resolver.hostIPs, globalHostIPs[i].Name) && resolver.hostIPs[globalHostIPs[i].Name] == globalHostIPs[i].Ip
+//@   loop 1:
+//@     invariant 0 <= $i && $i <= len(config.Hosts) && fresh(resolver) && resolver != nil
+//@     invariant forall j int :: 0 <= j && j < $i && (forall j2 int :: j < j2 && j2 < $i ==> config.Hosts[j2].Name != config.Hosts[j].Name)
+//@        ==> has(resolver.hostIPs, config.Hosts[j].Name) && resolver.hostIPs[config.Hosts[j].Name] == config.Hosts[j].Ip
+//@     invariant forall i int :: 0 <= i && i < len(globalHostIPs) && (forall i2 int :: i < i2 && i2 < len(globalHostIPs) ==> globalHostIPs[i2].Name != globalHostIPs[i].Name)
+//@        && (forall j int :: 0 <= j && j < $i ==> config.Hosts[j].Name != globalHostIPs[i].Name)
+//@        ==> has(resolver.hostIPs, globalHostIPs[i].Name) && resolver.hostIPs[globalHostIPs[i].Name] == globalHostIPs[i].Ip
+
 //@ func (*Proxy).isSameAddress
 //@   props C13
 //@   modifies nothing
@@ -1694,6 +1722,7 @@ package main
 //@ writers AddressWithCallback.addrs (C19): (*DynamicHostResolver).addressResolved
 //@ writers AddressWithCallback.failed (C19): (*DynamicHostResolver).addressResolved
 //@ writers Proxy.backends (C03 C04): (*Proxy).receiveAndProcessMessage
+//@ writers PreConfigHostResolver.hostIPs (C13): (*PreConfigHostResolver).AddHostIP
 
 //@ func (*Message).Write
 //@   props C01
